@@ -348,14 +348,19 @@ func (a *VersionedAttestation) UnmarshalSSZ(b []byte) error {
 	if err != nil {
 		// Previously a bug was introduced where validator index was not marshaled.
 		// Ensure backwards compatibility with nodes that have not yet updated to the new fixed version.
-		if !errors.Is(err, ssz.ErrOffset) {
+		// Note that the layout without validator index cannot always be detected by an offset error:
+		// its bytes at the offset position are the low 32 bits of the attestation slot, which may equal the expected offset.
+		// So try that layout on any error and only report the original error if it fails as well.
+		var errLegacy error
+
+		version, errLegacy = unmarshalSSZVersioned(b, a.sszValFromVersion)
+		if errLegacy != nil && !errors.Is(err, ssz.ErrOffset) {
 			return errors.Wrap(err, "unmarshal VersionedAttestation")
+		} else if errLegacy != nil {
+			return errors.Wrap(errLegacy, "unmarshal VersionedAttestation without validator index")
 		}
 
-		version, err = unmarshalSSZVersioned(b, a.sszValFromVersion)
-		if err != nil {
-			return errors.Wrap(err, "unmarshal VersionedAttestation without validator index")
-		}
+		valIdx = nil
 	}
 
 	a.Version = version.ToETH2()
